@@ -124,7 +124,11 @@ def run(ctx):
               and ast.unparse(e.data['base_node']) == 'self.data']
         sf = [e for e in I.events if e.kind == 'store' and e.data.get('target') == 'sub' and e.func.short == fi.short
               and isinstance(e.data['base_node'], ast.Name)]
-        ctx.require(len(ds) == 1 and len(sf) == 1, 'add_signal: expected one store into self.data and one into the returned frame')
+        if not (len(ds) == 1 and len(sf) == 1):
+            ctx.ob('AGREE', f'[{tag}] the data is updated by exactly one in-place addition into self.data[:, lo:hi] and the returned '
+                   'frame is filled once', fi, False, {'data_updates': [e.text() for e in ds], 'returned_frame_fills': [e.text() for e in sf]},
+                   node=fi.node, construct='self.data[:, lo:hi] += signal')
+            continue
         ctx.ob('AGREE', f'[{tag}] the data update is an in-place addition (injections superpose)', fi, ds[0].data.get('aug') == 'Add',
                {'statement': ds[0].text()}, node=ds[0].node)
         ctx.formula('AGREE', f'[{tag}] the columns added to the data are the columns filled in the returned frame', fi,
